@@ -265,7 +265,7 @@ def run(rep):
         for i, g in enumerate(gs):
             g2 = nav.renumber(g, order_rng=rng) if rng.random() < 0.6 else g
             for bi, B in enumerate(BUILTIN_SETS):
-                if cap is not None and quick and bi != i % 4 and bi != 3:
+                if quick and bi != i % 4 and bi != 3:   # quick: two builtins sets per model (one rotating, and both)
                     continue
                 variants = ("user", "donor") if (not quick and ui == 0) else (("user", "donor")[(i + bi) % 2],)
                 for v in variants:
